@@ -13,8 +13,8 @@ TOK13 = TOK12 + ["|"]
 TOK17 = TOK12 + ["|", "ab", "_x", "0", "2"]
 SP8 = ["a", "1", " ", "(a b)", "[a]", "...", " -> ", ","]
 TOK9 = ["a", "1", " ", "(", ")", "[", "]", "...", "->"]
-CH12 = ["a", "1", " ", "(a b)", "[a b]", "[a]", "...", " -> ", ", ", " + ", "(", ")"]
-CHUNKS = ["a", "b", "1", " ", "(a b)", "[a b]", "[a]", "(a)", "...", " -> ", ", ", " + ", "(", ")", "[", "]", "c d"]
+CH12 = ["a", "1", " ", "(a b)", "[a b]", "[a]", "...", " -> ", ", ", " + ", "(", ")", "0"]
+CHUNKS = ["a", "b", "1", " ", "(a b)", "[a b]", "[a]", "(a)", "...", " -> ", ", ", " + ", "(", ")", "[", "]", "c d", "0", "[0]"]
 PUNCT = {"->", ",", "+", "(", ")", "[", "]", " ", " -> ", ", ", " + "}
 
 INTERNAL = (AssertionError, NameError, KeyError, IndexError, AttributeError, RecursionError, UnboundLocalError, NotImplementedError)
